@@ -34,7 +34,8 @@ Flag(case, clauses, line) ==
 (* Behind the compaction adapter the carried indices are the subject of   *)
 (* C11 (and of known finding KF-1), not of the hook-protocol properties:   *)
 (* C10 demands exact carried indices only through Replace alone.           *)
-NotDemanded(m) == IF m.stack \in {"compact", "compact_replace", "compact_replace_nr", "compact_replace_ref"}
+NotDemanded(m) == IF m.stack \in {"compact", "compact_replace", "compact_replace_nr", "compact_replace_ref",
+                                   "replace_over_compact"}
                   THEN {"carried"} ELSE {}
 
 (* Adapters fed with a script (family A, C10), judged per delivered call:   *)
